@@ -348,6 +348,12 @@ func (env *Env) index(base, idx Term) Term {
 			return r
 		}
 	}
+	// a ghost set (the visited set seenK of a map range): membership
+	if strings.HasPrefix(base.Sort, "(Array ") && strings.HasSuffix(base.Sort, " Bool)") {
+		ks := strings.TrimSuffix(strings.TrimPrefix(base.Sort, "(Array "), " Bool)")
+		idx = env.coerce(idx, ks)
+		return Term{S: fmt.Sprintf("(select %s %s)", base.S, idx.S), Sort: SBool, T: types.Typ[types.Bool]}
+	}
 	return env.fail("index of %s", base.Sort)
 }
 
